@@ -2,6 +2,7 @@ import GrinVerif.Drv.Common
 import GrinVerif.Model.KeysSig
 import GrinVerif.Model.KeysBuild
 import GrinVerif.Model.KeysNonce
+import GrinVerif.Model.KeysMnemonic
 /-! Driver glue for the `keys` domain (property C20): recomputes every observation printed by
 `harness/src/bin/keys.rs` with the model `GrinVerif/Model/Keys.lean`.
 
@@ -312,6 +313,13 @@ def handle (st : St) (args : List String) (impl : String) : St × Verdict :=
     else (st, cmpModel (sigExpected variant) impl)
   -- the zero blinding factor as signing key: `ExtKeychain::sign_with_blinding` panics (ZERO_KEY
   -- reaches the assert in `Secp256k1::sign`), `aggsig::sign_with_blinding` signs
+  -- sign_with_blinding on chosen 32-byte blinding factors: ok / err / panic with the exact condition
+  | ["signb", "keychain", b] => match scalar? b with
+    | some b => (st, cmpModel (showSignRes (ksignBlinding b)) impl)
+    | none => (st, .unknown)
+  | ["signb", "aggsig", b] => match scalar? b with
+    | some b => (st, cmpModel (showSignRes (aggsigSignBlinding b)) impl)
+    | none => (st, .unknown)
   | ["sigzero", "ksign-blinding", _] => (st, cmpModel "panic" impl)
   | ["sigzero", "aggsig-blinding", _] => (st, cmpModel "true" impl)
   | ["mask", m, k] => match parseHex m, parseHex k with
@@ -339,6 +347,16 @@ def handle (st : St) (args : List String) (impl : String) : St × Verdict :=
       | some r => (st, cmpModel (showNonce r) impl)
       | none => (st, .unknown)
     | _, _, _, _ => (st, .unknown)
+  -- child numbers at the 2^31 boundary: constructors (panic from 2^31 on) and `From<u32>`
+  | ["cnidx", kind, i] => match nat? i with
+    | some i => match childFromIdx (kind == "hardened") i with
+      | some c => (st, cmpModel s!"ok:{c.toU32}:{if c.isHardened then "hardened" else "normal"}" impl)
+      | none => (st, cmpModel "panic" impl)
+    | none => (st, .unknown)
+  -- two children of one parent: the same key iff the same u32 word
+  | ["ckdsame", a, b] => match nat? a, nat? b with
+    | some a, some b => (st, cmpSpec (if a == b then "same" else "differs") impl)
+    | _, _ => (st, .unknown)
   | ["rewindhash", pubRoot] => match parseHex pubRoot with
     | some p => (st, cmpModel (toHex (viewRewindHash p)) impl)
     | none => (st, .unknown)
@@ -347,6 +365,17 @@ def handle (st : St) (args : List String) (impl : String) : St × Verdict :=
     | none => (st, .unknown)
   | ["bfslice", data] => match (if data == "-" then some [] else parseHex data) with
     | some d => (st, cmpModel (toHex (bfFromSlice d)) impl)
+    | none => (st, .unknown)
+  -- run `mnemonic`: BIP39 bit packing, checksum by the driver's own SHA-256
+  | ["mnfrom", e] => match (if e == "-" then some [] else parseHex e) with
+    | some e => match Mnemonic.fromEntropy Mnemonic.sha0 e with
+      | .ok idx => (st, cmpModel (showNatList idx) impl)
+      | .error er => (st, cmpModel ("err:" ++ er.show) impl)
+    | none => (st, .unknown)
+  | ["mnto", idx] => match parseNatList idx with
+    | some idx => match Mnemonic.toEntropy Mnemonic.sha0 idx with
+      | .ok e => (st, cmpModel (toHex e) impl)
+      | .error er => (st, cmpModel ("err:" ++ er.show) impl)
     | none => (st, .unknown)
   -- `reward::output` called twice with the same arguments: same output (commitment, range proof),
   -- same excess; the same kernel signature exactly in test mode (fixed nonce)
